@@ -5,6 +5,7 @@
 package xrep
 
 //@ struct pipe
+//@   never_closed: sendQ
 //@   immutable: p s closeQ sendQ
 //@
 //@ struct socket
